@@ -1,5 +1,6 @@
 import LyModel.Props.C07
 import LyModel.Props.C07Valdiff
+import LyModel.Props.C07Completion
 #print axioms LyModel.Props.C07.validate_idempotent
 #print axioms LyModel.Props.C07.dflt_flag_sound
 #print axioms LyModel.Props.C07.is_default_iff_rfc6243_fails
@@ -27,3 +28,5 @@ import LyModel.Props.C07Valdiff
 #print axioms LyModel.Props.C07.valdiff_exact_partial_validated
 #print axioms LyModel.Props.C07.implicit_valdiff_exact
 #print axioms LyModel.Props.C07.valdiff_exact_partial_fresh
+#print axioms LyModel.Props.C07.implicit_exact_tree_explicit
+#print axioms LyModel.Props.C07.implicit_exact_tree_nochoice
